@@ -291,3 +291,25 @@ def shrink(case, failure, ctx):
         else:
             i += 1
     return _history(ops, "shrunk"), failure
+
+
+# ------------------------------------------------------------------------------------ known findings (optional)
+def _registers_legacy_spelling(ops):
+    from barril.units.unit_database import FixUnitIfIsLegacy
+
+    return any("q" not in o and o["k"] in ("base", "unit") and isinstance(o["unit"], str) and FixUnitIfIsLegacy(o["unit"])[0]
+               for o in ops)
+
+
+def matches_known(entry, case, failure):
+    """input class `units-registered-under-legacy-spellings`: warm != fresh for Scalar(x, unit) when units were
+    registered under spellings that FixUnitIfIsLegacy rewrites (lbmolee / lbmole / lbmol)."""
+    if entry.get("matcher", {}).get("class") != "units-registered-under-legacy-spellings":
+        return False
+    ops = case["_t"]["ops"] if case else entry["replay_case"]["ops"]
+    return failure.get("clause", "").startswith("an operation answers differently") and _registers_legacy_spelling(ops)
+
+
+def replay_finding(entry, ctx):
+    f = _check(entry["replay_case"]["ops"])
+    return f if f and matches_known(entry, None, f) else None
